@@ -102,6 +102,9 @@ func pipeRender(in pipeInput, text string, diagram0 *d2target.Diagram, g *d2grap
 	if in.Mode == "render2" || in.Mode == "render2-plain" {
 		pick = []int64{pick[0], 300, 301, 303} // every theme with special rules
 	}
+	if in.Mode == "render3" || in.Mode == "render3-plain" {
+		pick = []int64{pick[0], 300, 301, 302, 303}
+	}
 	seenT := map[int64]bool{}
 	for _, tid := range pick {
 		if seenT[tid] || d2themescatalog.Find(tid).ID != tid {
@@ -212,6 +215,8 @@ func pipeRender(in pipeInput, text string, diagram0 *d2target.Diagram, g *d2grap
 							return fmt.Sprint(c.Italic), fmt.Sprint(c.Italic) == a["style.italic"], true
 						case "animated":
 							return fmt.Sprint(c.Animated), fmt.Sprint(c.Animated) == a["style.animated"], true
+						case "borderRadius":
+							return fmt.Sprint(c.BorderRadius), numEq(a["style.borderRadius"], c.BorderRadius), true
 						}
 						return "", false, false
 					})...)
@@ -238,7 +243,7 @@ func pipeRender(in pipeInput, text string, diagram0 *d2target.Diagram, g *d2grap
 	}
 	combos := []combo{{pad: 100, theme: 0, dark: -1}, {pad: int64(r.Intn(200)), sketch: true, theme: themes[r.Intn(len(themes))], dark: -1},
 		{pad: int64(r.Intn(9)), center: true, scale: 0.5 + r.Float64(), theme: themes[r.Intn(len(themes))], dark: []int64{200, 201}[r.Intn(2)], ovr: 1 + r.Intn(4)}}
-	if in.Mode == "render2" {
+	if in.Mode == "render2" || in.Mode == "render3" {
 		// a dark theme with overrides given for one colour scheme only
 		combos = append(combos, combo{pad: 10, theme: themes[r.Intn(len(themes))], dark: []int64{200, 201}[r.Intn(2)], ovr: 1 + r.Intn(3), only: 1 + r.Intn(2)})
 	}
